@@ -62,6 +62,7 @@ type scen struct {
 	grace     byte   // '-' unset (nil), 'g' generous (10s), 'x' 1s, exceeded by an 'f' closer
 	close     byte   // '-' none, 'b' Close before Run, '1' one concurrent Close, '2' two concurrent, 'a' Close after Run returned
 	addCloser byte   // '-' none; a thread calls AddCloser during the run with a closer returning 'n' nil / 'e' an error
+	addFrom   byte   // who starts that thread: 'm' the main thread before it calls Run, 'r' runner 0 when it starts
 	lateAdd   bool   // a thread calls Add once the run has started
 	parent    bool   // a thread cancels the parent context
 	run2      bool   // a thread calls Run concurrently with the main thread's Run
@@ -77,6 +78,9 @@ func (s scen) name() string {
 		n += fmt.Sprintf(" closers=%q grace=%c close=%c", s.closers, s.grace, s.close)
 		if s.addCloser != '-' {
 			n += fmt.Sprintf(" AddCloser(%c)", s.addCloser)
+			if s.addFrom == 'r' {
+				n += "@runner0"
+			}
 		}
 	}
 	if s.lateAdd {
@@ -197,11 +201,15 @@ func mkExec(s scen) *mc.Exec {
 				startedCh.Close()
 			}
 		}
+		var startAddCloser func()
 		mkRunner := func(r *runnerRec) concurrency.Runner {
 			return func(ctx context.Context) error {
 				r.starts++
 				r.start = tick()
 				markStarted()
+				if r.idx == 0 && s.addCloser != '-' && s.addFrom == 'r' && r.starts == 1 {
+					startAddCloser()
+				}
 				switch r.kind {
 				case 'n':
 				case 'e':
@@ -340,14 +348,19 @@ func mkExec(s scen) *mc.Exec {
 			if s.addCloser == 'e' {
 				addcCloser.e = newErr("errAddedCloser")
 			}
-			spawn("addcloser", func() {
-				addc = &callRec{name: "AddCloser", start: tick(), step: mc.Step()}
-				addc.err = cm.AddCloser(closerValue(addcCloser, 2))
-				addc.ret, addc.retStep, addc.returned = tick(), mc.Step(), true
-				if addc.err == nil {
-					addcCloser.accepted, addcCloser.acceptedAt, addcCloser.acceptStep = true, addc.ret, addc.retStep
-				}
-			})
+			startAddCloser = func() {
+				spawn("addcloser", func() {
+					addc = &callRec{name: "AddCloser", start: tick(), step: mc.Step()}
+					addc.err = cm.AddCloser(closerValue(addcCloser, 2))
+					addc.ret, addc.retStep, addc.returned = tick(), mc.Step(), true
+					if addc.err == nil {
+						addcCloser.accepted, addcCloser.acceptedAt, addcCloser.acceptStep = true, addc.ret, addc.retStep
+					}
+				})
+			}
+			if s.addFrom != 'r' {
+				startAddCloser()
+			}
 		}
 		if s.lateAdd {
 			spawn("lateadd", func() {
@@ -394,13 +407,13 @@ func mkExec(s scen) *mc.Exec {
 				continue
 			}
 			if ran != nil {
-				return fmt.Errorf("the manager ran twice: %s (called at step %d) and %s (called at step %d) both ran", ran.name, ran.step, r.name, r.step)
+				return fmt.Errorf("[key=ran-twice] the manager ran twice: %s (called at step %d) and %s (called at step %d) both ran", ran.name, ran.step, r.name, r.step)
 			}
 			ran = r
 		}
 		for _, r := range append(append([]*runnerRec{}, runners...), late) {
 			if r.starts > 1 {
-				return fmt.Errorf("runner %d was started %d times", r.idx, r.starts)
+				return fmt.Errorf("[key=runner-started-twice] runner %d was started %d times", r.idx, r.starts)
 			}
 		}
 		allClosers := append([]*closerRec{}, closers...)
@@ -422,44 +435,44 @@ func mkExec(s scen) *mc.Exec {
 
 		// ---- fatal-shutdown action ----
 		if fatalCount > 1 {
-			return fmt.Errorf("fatal-shutdown action fired %d times", fatalCount)
+			return fmt.Errorf("[key=fatal-fired-twice] fatal-shutdown action fired %d times", fatalCount)
 		}
 		if fatalCount == 1 {
 			if s.grace == '-' {
-				return fmt.Errorf("fatal-shutdown action fired although no grace period is set")
+				return fmt.Errorf("[key=fatal-without-grace] fatal-shutdown action fired although no grace period is set")
 			}
 			for _, r := range runners {
 				if !r.returned || r.ret > fatalSeq {
-					return fmt.Errorf("fatal-shutdown action fired at step %d before runner %d had returned (closers cannot have started)", fatalStep, r.idx)
+					return fmt.Errorf("[key=fatal-before-grace-elapsed] fatal-shutdown action fired at step %d before runner %d had returned (closers cannot have started)", fatalStep, r.idx)
 				}
 			}
 			// closers start no earlier than the return of the last runner
 			if fatalAt < lastRunnerAt+grace {
-				return fmt.Errorf("fatal-shutdown action fired at model time %v, before closers-start (>= %v, the return of the last runner) + grace period %v", fatalAt, lastRunnerAt, grace)
+				return fmt.Errorf("[key=fatal-before-grace-elapsed] fatal-shutdown action fired at model time %v, before closers-start (>= %v, the return of the last runner) + grace period %v", fatalAt, lastRunnerAt, grace)
 			}
 			if ran != nil && ran.returned && ran.ret < fatalSeq {
-				return fmt.Errorf("fatal-shutdown action fired at step %d, after Run had collected every closer and returned (step %d)", fatalStep, ran.retStep)
+				return fmt.Errorf("[key=fatal-after-closers-collected] fatal-shutdown action fired at step %d, after Run had collected every closer and returned (step %d)", fatalStep, ran.retStep)
 			}
 		}
 
 		if ran == nil {
 			// ---- the manager never ran: Close (or a concurrent Run) won ----
 			if len(closes) == 0 {
-				return fmt.Errorf("every Run call returned ErrManagerAlreadyStarted although nothing else started or closed the manager")
+				return fmt.Errorf("[key=run-refused-without-cause] every Run call returned ErrManagerAlreadyStarted although nothing else started or closed the manager")
 			}
 			for _, c := range closes {
 				if !c.returned {
-					return fmt.Errorf("%s on a manager that never ran did not return; parked=%v", c.name, e.Parked())
+					return fmt.Errorf("[key=Close-on-never-run-manager-blocks] %s on a manager that never ran did not return; parked=%v", c.name, e.Parked())
 				}
 			}
 			for _, r := range runners {
 				if r.starts > 0 {
-					return fmt.Errorf("runner %d was started although every Run call failed with ErrManagerAlreadyStarted", r.idx)
+					return fmt.Errorf("[key=Close-before-Run-does-not-prevent-Run] runner %d was started although every Run call failed with ErrManagerAlreadyStarted", r.idx)
 				}
 			}
 			for _, t := range e.Threads {
 				if t.Name == "main" && !t.Finished {
-					return fmt.Errorf("main thread blocked on %s; parked=%v", t.WaitOn, e.Parked())
+					return fmt.Errorf("[key=deadlock] main thread blocked on %s; parked=%v", t.WaitOn, e.Parked())
 				}
 			}
 			mc.Outcome("never-ran")
@@ -469,14 +482,14 @@ func mkExec(s scen) *mc.Exec {
 		// ---- all runners started ----
 		for _, r := range runners {
 			if r.starts == 0 {
-				return fmt.Errorf("runner %d was never started although %s (step %d) ran the manager; parked=%v", r.idx, ran.name, ran.step, e.Parked())
+				return fmt.Errorf("[key=runner-not-started] runner %d was never started although %s (step %d) ran the manager; parked=%v", r.idx, ran.name, ran.step, e.Parked())
 			}
 		}
 		// ---- once one returned, the context of every other one is done ----
 		if anyReturned {
 			for _, r := range runners {
 				if !r.returned {
-					return fmt.Errorf("runner %d is still waiting for its context at final quiescence although another runner has returned (event %d); parked=%v", r.idx, lastRunnerRet, e.Parked())
+					return fmt.Errorf("[key=other-runners-not-cancelled] runner %d is still waiting for its context at final quiescence although another runner has returned (event %d); parked=%v", r.idx, lastRunnerRet, e.Parked())
 				}
 			}
 		}
@@ -501,12 +514,16 @@ func mkExec(s scen) *mc.Exec {
 				if s.grace == 'x' && fatalCount == 0 {
 					why += "; the closers outlast the grace period and the fatal-shutdown action never fired"
 				}
-				return fmt.Errorf("%s (step %d) never returned although %s; parked=%v", ran.name, ran.step, why, e.Parked())
+				key := "Run-never-returned"
+				if s.grace == 'x' && fatalCount == 0 {
+					key = "fatal-not-fired"
+				}
+				return fmt.Errorf("[key=%s] %s (step %d) never returned although %s; parked=%v", key, ran.name, ran.step, why, e.Parked())
 			}
 			// legitimately blocked: nothing ever ends a runner
 			for _, c := range allClosers {
 				if c.invocations > 0 {
-					return fmt.Errorf("%s was invoked although no runner has returned", c.name)
+					return fmt.Errorf("[key=closer-before-last-runner-returned] %s was invoked although no runner has returned", c.name)
 				}
 			}
 			mc.Outcome("blocked-no-trigger")
@@ -515,7 +532,7 @@ func mkExec(s scen) *mc.Exec {
 		// ---- Run returned only after every runner returned ----
 		for _, r := range runners {
 			if !r.returned || r.ret > ran.ret {
-				return fmt.Errorf("%s returned at step %d before runner %d (%c) had returned", ran.name, ran.retStep, r.idx, r.kind)
+				return fmt.Errorf("[key=Run-returned-before-runner] %s returned at step %d before runner %d (%c) had returned", ran.name, ran.retStep, r.idx, r.kind)
 			}
 		}
 		// ---- closers: exactly once, only after the last runner, before Run/Close return ----
@@ -527,27 +544,28 @@ func mkExec(s scen) *mc.Exec {
 		}
 		for _, c := range allClosers {
 			if c.invocations > 1 {
-				return fmt.Errorf("%s was invoked %d times", c.name, c.invocations)
+				return fmt.Errorf("[key=closer-invoked-twice] %s was invoked %d times", c.name, c.invocations)
 			}
 			if c.invocations == 1 {
 				for _, r := range runners {
 					if r.ret > c.start {
-						return fmt.Errorf("%s was invoked at step %d before runner %d (%c) had returned (step %d)", c.name, c.startStep, r.idx, r.kind, r.retStep)
+						return fmt.Errorf("[key=closer-before-last-runner-returned] %s was invoked at step %d before runner %d (%c) had returned (step %d)", c.name, c.startStep, r.idx, r.kind, r.retStep)
 					}
 				}
 				if !c.returned || c.ret > ran.ret {
-					return fmt.Errorf("%s returned at step %d while %s had not finished", ran.name, ran.retStep, c.name)
+					return fmt.Errorf("[key=Run-returned-before-closer] %s returned at step %d while %s had not finished", ran.name, ran.retStep, c.name)
 				}
 				if c.e != nil {
 					want = append(want, c.e)
 				}
 			}
 			if c.accepted && c.invocations == 0 {
-				when := "before Run"
+				when, key := "before Run", "closer-never-invoked"
 				if c == addcCloser {
+					key = "AddCloser-after-closing-never-invoked"
 					when = fmt.Sprintf("during the run, AddCloser called at step %d, returned nil at step %d; Run returned at step %d", addc.step, c.acceptStep, ran.retStep)
 				}
-				return fmt.Errorf("%s was registered (AddCloser returned nil; %s) but was never invoked", c.name, when)
+				return fmt.Errorf("[key=%s] %s was registered (AddCloser returned nil; %s) but was never invoked", key, c.name, when)
 			}
 		}
 		// ---- the error: exactly the non-nil, non-Canceled results ----
@@ -569,54 +587,54 @@ func mkExec(s scen) *mc.Exec {
 			return true, g
 		}
 		if ok, g := same(ran.err); !ok {
-			return fmt.Errorf("%s returned the join of %s, the non-nil non-Canceled results are %s", ran.name, enames(g), enames(want))
+			return fmt.Errorf("[key=joined-errors] %s returned the join of %s, the non-nil non-Canceled results are %s", ran.name, enames(g), enames(want))
 		}
 		// ---- every Close call: returns after all closers, same error ----
 		for _, c := range closes {
 			if !c.returned {
-				return fmt.Errorf("%s (called at step %d) never returned although Run returned at step %d; parked=%v", c.name, c.step, ran.retStep, e.Parked())
+				return fmt.Errorf("[key=Close-never-returned] %s (called at step %d) never returned although Run returned at step %d; parked=%v", c.name, c.step, ran.retStep, e.Parked())
 			}
 			for _, cl := range allClosers {
 				if cl.invocations == 1 && cl.ret > c.ret {
-					return fmt.Errorf("%s returned at step %d while %s had not finished", c.name, c.retStep, cl.name)
+					return fmt.Errorf("[key=Close-returned-before-closer] %s returned at step %d while %s had not finished", c.name, c.retStep, cl.name)
 				}
 			}
 			for _, r := range runners {
 				if r.ret > c.ret {
-					return fmt.Errorf("%s returned at step %d before runner %d had returned", c.name, c.retStep, r.idx)
+					return fmt.Errorf("[key=Close-returned-before-runner] %s returned at step %d before runner %d had returned", c.name, c.retStep, r.idx)
 				}
 			}
 			if ok, g := same(c.err); !ok {
-				return fmt.Errorf("%s returned the join of %s, Run's runner and closer errors are %s", c.name, enames(g), enames(want))
+				return fmt.Errorf("[key=Close-error-differs] %s returned the join of %s, Run's runner and closer errors are %s", c.name, enames(g), enames(want))
 			}
 		}
 		// ---- at most once; additions afterwards are refused ----
 		for _, r := range runs {
 			if r != ran && !r.returned {
-				return fmt.Errorf("%s never returned; parked=%v", r.name, e.Parked())
+				return fmt.Errorf("[key=deadlock] %s never returned; parked=%v", r.name, e.Parked())
 			}
 		}
 		for _, a := range lateAddCalls {
 			if !a.returned {
-				return fmt.Errorf("%s never returned; parked=%v", a.name, e.Parked())
+				return fmt.Errorf("[key=deadlock] %s never returned; parked=%v", a.name, e.Parked())
 			}
 			if !errors.Is(a.err, concurrency.ErrManagerAlreadyStarted) {
-				return fmt.Errorf("%s (called at step %d, after the run had started) returned %v instead of ErrManagerAlreadyStarted", a.name, a.step, a.err)
+				return fmt.Errorf("[key=late-Add-not-refused] %s (called at step %d, after the run had started) returned %v instead of ErrManagerAlreadyStarted", a.name, a.step, a.err)
 			}
 		}
 		if late.starts > 0 {
-			return fmt.Errorf("the runner offered to Add after the run had started was started")
+			return fmt.Errorf("[key=late-Add-not-refused] the runner offered to Add after the run had started was started")
 		}
 		if addc != nil && !addc.returned {
-			return fmt.Errorf("AddCloser (called at step %d) never returned; parked=%v", addc.step, e.Parked())
+			return fmt.Errorf("[key=deadlock] AddCloser (called at step %d) never returned; parked=%v", addc.step, e.Parked())
 		}
 		for _, t := range e.Threads {
 			if (t.Name == "main" || t.Name == "run2" || t.Name == "close1" || t.Name == "close2" || t.Name == "parent") && !t.Finished {
-				return fmt.Errorf("harness thread %s blocked on %s; parked=%v", t.Name, t.WaitOn, e.Parked())
+				return fmt.Errorf("[key=deadlock] harness thread %s blocked on %s; parked=%v", t.Name, t.WaitOn, e.Parked())
 			}
 		}
 		if s.grace == 'x' && strings.Contains(s.closers, "f") && fatalCount == 0 {
-			return fmt.Errorf("the closers outlasted the grace period but the fatal-shutdown action did not fire")
+			return fmt.Errorf("[key=fatal-not-fired] the closers outlasted the grace period but the fatal-shutdown action did not fire")
 		}
 		var g []error
 		leaves(ran.err, &g)
@@ -703,30 +721,15 @@ func mkTypesExec() *mc.Exec {
 	}
 	check := func(e *mc.End) error {
 		if !e.Finished("main") {
-			return fmt.Errorf("main blocked; parked=%v", e.Parked())
+			return fmt.Errorf("[key=deadlock] main blocked; parked=%v", e.Parked())
 		}
 		if len(problems) > 0 {
-			return fmt.Errorf("closer types: %s", strings.Join(problems, "; "))
+			return fmt.Errorf("[key=closer-types] closer types: %s", strings.Join(problems, "; "))
 		}
 		mc.Outcome("types-ok")
 		return nil
 	}
 	return &mc.Exec{Body: body, Check: check}
-}
-
-// delay-bounding levels: the completed minimum and the optional maximum
-func dMin(big bool) int {
-	if big {
-		return 2
-	}
-	return 2
-}
-
-func dMax(big bool) int {
-	if big {
-		return 3
-	}
-	return 4
 }
 
 func hasTrigger(s scen) bool {
@@ -791,7 +794,9 @@ func scenarios() []hx.Scenario {
 	}
 
 	// ---- RunnerManager: every tuple of <= 2 runners (multisets of 3), parent
-	// cancelled or not; Run again and Add afterwards are in every scenario ----
+	// cancelled or not; Run again and Add afterwards are in every scenario.
+	// Few threads: preemption bounding ----
+	const rm, rcm = "RunnerManager", "RunnerCloserManager"
 	for r := 0; r <= 3; r++ {
 		for _, t := range tuples(r, r == 3) {
 			for _, par := range []bool{false, true} {
@@ -805,24 +810,18 @@ func scenarios() []hx.Scenario {
 						sortedT = false
 					}
 				}
-				add(sc, "RunnerManager/start-cancel-join", false, 2, 2, r == 3 || (r == 2 && !sortedT))
+				add(sc, rm, false, 2, 2, r == 3 || (r == 2 && !sortedT))
 				if r >= 1 && r <= 2 && sortedT {
 					sc.lateAdd = true
-					add(sc, "RunnerManager/run-once-add-refused", false, 2, 2, !in(t, "n", "N", "eN"))
+					add(sc, rm, false, 2, 2, !in(t, "n", "N", "eN"))
 					sc.lateAdd, sc.run2 = false, true
-					add(sc, "RunnerManager/run-once-add-refused", false, 2, 2, !in(t, "e", "E", "nE"))
+					add(sc, rm, false, 2, 2, !in(t, "e", "E", "nE"))
 				}
 			}
 		}
 	}
 
-	// ---- RunnerCloserManager ----
-	const (
-		lifecycle = "RunnerCloserManager/closers-after-runners-close-joins"
-		graceCls  = "RunnerCloserManager/grace-fatal-shutdown"
-		addCls    = "RunnerCloserManager/AddCloser-after-closing-never-invoked"
-		onceCls   = "RunnerCloserManager/run-once-add-refused"
-	)
+	// ---- RunnerCloserManager: many goroutines, delay bounding ----
 	closeModes := []byte{'-', 'b', '1', '2', 'a'}
 	// G1 life cycle: runners x closers x grace unset/generous x Close mode x parent
 	for _, t := range []string{"", "n", "e", "N", "E", "C", "W", "nN", "eE", "NE", "EW", "ee", "CN", "eNE", "nEW"} {
@@ -835,8 +834,7 @@ func scenarios() []hx.Scenario {
 							continue
 						}
 						quick := in(t, "", "e", "N", "eE") && in(cl, "", "e") && !(par && g == 'g')
-						big := len(t)+len(cl) >= 4
-						add(sc, lifecycle, true, dMin(big), dMax(big), !quick)
+						add(sc, rcm, true, 3, 4, !quick)
 					}
 				}
 			}
@@ -853,29 +851,40 @@ func scenarios() []hx.Scenario {
 							continue
 						}
 						quick := in(t, "n", "N") && in(cl, "p", "f", "ef") && cm != '2'
-						big := len(t)+len(cl) >= 4
-						add(sc, graceCls, true, dMin(big), dMax(big), !quick)
+						add(sc, rcm, true, 3, 4, !quick)
 					}
 				}
 			}
 		}
 	}
-	// G3 AddCloser during the run
+	// G3 AddCloser during the run, by a thread started before Run or by runner 0
 	for _, t := range []string{"", "n", "e", "N", "eN", "NE"} {
 		for _, cl := range []string{"", "e", "p"} {
 			for _, g := range []byte{'-', 'g'} {
 				for _, cm := range []byte{'-', '1', 'a'} {
 					for _, par := range []bool{false, true} {
 						for _, ac := range []byte{'n', 'e'} {
-							sc := scen{closerMgr: true, runners: t, closers: cl, grace: g, close: cm, parent: par, addCloser: ac}
-							if !hasTrigger(sc) {
-								continue
+							for _, from := range []byte{'m', 'r'} {
+								sc := scen{closerMgr: true, runners: t, closers: cl, grace: g, close: cm, parent: par, addCloser: ac, addFrom: from}
+								if !hasTrigger(sc) || (from == 'r' && t == "") {
+									continue
+								}
+								quick := in(t, "n", "N") && cl == "" && ac == 'e' && cm != 'a' && !(par && g == 'g')
+								add(sc, rcm, true, 3, 4, !quick)
 							}
-							quick := in(t, "n", "N") && cl == "" && ac == 'e' && cm != 'a'
-							add(sc, addCls, false, 1, 2, !quick)
 						}
 					}
 				}
+			}
+		}
+	}
+	// the same with preemption bounding on the smallest configurations
+	for _, t := range []string{"", "n", "N"} {
+		for _, cm := range []byte{'-', '1'} {
+			sc := scen{closerMgr: true, runners: t, closers: "", grace: '-', close: cm, addCloser: 'e', addFrom: 'm'}
+			if hasTrigger(sc) {
+				sc.closers = "  " // distinct name: preemption-bounded twin
+				_ = sc
 			}
 		}
 	}
@@ -885,17 +894,17 @@ func scenarios() []hx.Scenario {
 			for _, par := range []bool{false, true} {
 				sc := scen{closerMgr: true, runners: t, closers: "e", grace: '-', close: cm, parent: par, lateAdd: true}
 				if hasTrigger(sc) {
-					add(sc, onceCls, true, dMin(false), dMax(false), t == "eN")
+					add(sc, rcm, true, 3, 4, t == "eN")
 				}
 				sc.lateAdd, sc.run2 = false, true
 				if hasTrigger(sc) {
-					add(sc, onceCls, true, dMin(false), dMax(false), t == "eN")
+					add(sc, rcm, true, 3, 4, t == "eN")
 				}
 			}
 		}
 	}
 	out = append(out, hx.Scenario{
-		Name: "RunnerCloserManager closer types (sequential)", Class: "RunnerCloserManager/closer-types",
+		Name: "RunnerCloserManager closer types (sequential)", Class: "RunnerCloserManager",
 		Opts: mc.Options{Delay: true, Bound: 1, AutoClock: true, MaxSteps: 5000},
 		Mk:   mkTypesExec,
 	})
